@@ -20,6 +20,7 @@ import time
 VERIF = os.path.dirname(os.path.dirname(os.path.abspath(__file__)))
 REPO = os.environ.get("VERIF_REPO", "/repo")
 BUILD = os.path.join(VERIF, ".build")
+SCRATCH = os.path.realpath(REPO) != "/repo"   # mutant / seeded-change runs must not overwrite evidence or replays
 sys.path.insert(0, os.path.join(VERIF, "lib"))
 import registry  # noqa: E402
 
@@ -164,7 +165,7 @@ def signature(job):
 
 
 def save_replay(pid, job, sig):
-    rdir = os.path.join(VERIF, "replays", pid)
+    rdir = os.path.join(BUILD, pid, "replays-scratch") if SCRATCH else os.path.join(VERIF, "replays", pid)
     os.makedirs(rdir, exist_ok=True)
     tag = "%s__%s__seed%s" % (job["unit"], job["test"], job["seed"])
     m = RE_FAILFILE.findall(job["out"])
@@ -328,12 +329,13 @@ def write_evidence(pid, prop, tier, seed, units, wall, violations, inconclusive,
         "wall_s": round(wall, 2),
         "violations": violations,
     }
-    os.makedirs(os.path.join(VERIF, "evidence"), exist_ok=True)
-    tmp = os.path.join(VERIF, "evidence", pid + ".json.tmp")
+    edir = os.path.join(BUILD, pid, "evidence-scratch") if SCRATCH else os.path.join(VERIF, "evidence")
+    os.makedirs(edir, exist_ok=True)
+    tmp = os.path.join(edir, pid + ".json.tmp")
     with open(tmp, "w") as f:
         json.dump(ev, f, indent=1, sort_keys=False)
         f.write("\n")
-    os.replace(tmp, os.path.join(VERIF, "evidence", pid + ".json"))
+    os.replace(tmp, os.path.join(edir, pid + ".json"))
 
 
 def do_replay(pid, prop, path, bdir):
